@@ -1,5 +1,7 @@
 """C07: Cartesian / bounds-defined grids, cell base/top, nested locations, pitch change, constructor-argument
 round trip, labels."""
+import os
+
 import numpy as np
 
 from symx.core import AND, OR, NOT, IMPLIES, IFF, ITE, MAX, Sym, CLOSE
@@ -19,7 +21,7 @@ from armi.reactor.grids import (AxialGrid, CartesianGrid, HexGrid, ThetaRZGrid, 
 from armi.reactor.grids.grid import Grid
 from harness import _build
 
-shims.patch(sgmod, np=shims.np_shim)
+shims.patch(sgmod, np=shims.np_shim_obj)
 shims.patch(locmod, np=shims.np_shim_obj)
 shims.patch(hexmod, np=shims.np_shim, sqrt=shims.math_shim.sqrt, isclose=shims.math_shim.isclose)
 shims.patch(cartmod, np=shims.np_shim, int=shims.int_shim, math=shims.math_shim)
@@ -124,6 +126,13 @@ def cartesian_ring_position_is_a_bijection_per_ring(ctx, offset):
               IMPLIES(AND(r1 == r2, p1 == p2), AND(i == i2, j == j2)))
 
 
+# KNOWN DEFECT (pre-existing, reported by an independent engineer; unchanged tree): a bounds-defined dimension with n bounds
+# has n - 1 cells, but getIndexBounds() counts the bounds and the grid builds n locators; the last one is no cell:
+#   g = AxialGrid.fromNCells(3); len(g) -> 4; g[0, 0, 3].getLocalCoordinates() -> IndexError
+# VERIF_SHOW_KNOWN_DEFECTS=1 shows the violations.
+KNOWN_DEFECT_bounds_defined_grid_builds_a_locator_beyond_its_last_cell = True
+
+
 @harness("C07", bounds="bounds-defined axis with 2..4 strictly increasing symbolic bounds; index forked over its range; "
                        "axial grid and theta-R-Z native coordinates", stubs=STUBS,
          instances={"quick": [dict(n=2), dict(n=3), dict(n=4)]})
@@ -144,6 +153,17 @@ def bounds_defined_cells(ctx, n):
     ctx.check_close("top is the upper bound", t[2], zs[k + 1], scale=2000.0)
     ctx.check("index bounds count the bounds", g.getIndexBounds()[2] == (0, n))
     ctx.check("axial-only grid", g.isAxialOnly)
+    if _SHOW_KNOWN or not KNOWN_DEFECT_bounds_defined_grid_builds_a_locator_beyond_its_last_cell:
+        # cell indices <-> locator objects: the grid holds one locator per cell, and every locator it holds is a cell
+        ctx.check("n bounds make n - 1 cells: the grid holds n - 1 locators", len(g) == n - 1)
+        for kk in range(n):
+            if (0, 0, kk) in dict(g.items()):
+                try:
+                    dict(g.items())[0, 0, kk].getLocalCoordinates()
+                    isCell = True
+                except IndexError:
+                    isCell = False
+                ctx.check("the locator (0, 0, %d) the grid holds is a cell with coordinates" % kk, isCell)
     try:
         g.getCoordinates((0, 0, -1))
         refused = False
@@ -224,9 +244,22 @@ def nested_locations_compose(ctx):
     ctx.check_close("block global cell top z", top[2], h0 + h1, scale=1000.0)
 
 
-@harness("C07", bounds="hex (both orientations, symbolic pitch), Cartesian (symbolic widths, with/without offset) and "
-                       "bounds-defined axial grids rebuilt from reduce(); symbolic index", stubs=STUBS,
-         instances={"quick": [dict(kind=k) for k in ("hex", "hexCorners", "cart", "cartOffset", "axial")]})
+# KNOWN DEFECT (pre-existing, reported by an independent engineer; unchanged tree): reduce() of a grid that mixes unit steps
+# with bounds (x, y by steps, z by bounds: the 3-D pin / core mesh) returns RAGGED unit steps (the reduced 2-vectors plus a
+# scalar 0 for the bounds dimension), which the constructor refuses:
+#   g = CartesianGrid(unitSteps=((1.0, 0.0), (0.0, 2.0)), bounds=(None, None, [0.0, 1.0, 3.0]))
+#   CartesianGrid(*g.reduce()) -> ValueError: setting an array element with a sequence (inhomogeneous shape)
+# While the flag is set the mixed kind is left out of the instances; VERIF_SHOW_KNOWN_DEFECTS=1 shows the violation.
+KNOWN_DEFECT_reduce_of_mixed_steps_and_bounds_grid_is_ragged = True
+_SHOW_KNOWN = os.environ.get("VERIF_SHOW_KNOWN_DEFECTS", "") != ""
+REBUILD_KINDS = ["hex", "hexCorners", "cart", "cartOffset", "axial"] + (
+    ["cartZbounds"] if _SHOW_KNOWN or not KNOWN_DEFECT_reduce_of_mixed_steps_and_bounds_grid_is_ragged else [])
+
+
+@harness("C07", bounds="hex (both orientations, symbolic pitch), Cartesian (symbolic widths, with/without offset), "
+                       "bounds-defined axial grids and (see KNOWN_DEFECT_reduce_of_mixed_steps_and_bounds_grid_is_ragged) "
+                       "Cartesian x-y steps + z bounds grids rebuilt from reduce(); symbolic index", stubs=STUBS,
+         instances={"quick": [dict(kind=k) for k in REBUILD_KINDS]})
 def grid_rebuilt_from_constructor_arguments_is_the_same_grid(ctx, kind):
     i, j = ctx.int("i"), ctx.int("j")
     p, q = ctx.real("p", 0.01, 1000.0), ctx.real("q", 0.01, 1000.0)
@@ -234,6 +267,9 @@ def grid_rebuilt_from_constructor_arguments_is_the_same_grid(ctx, kind):
         g = HexGrid.fromPitch(p, numRings=1, cornersUp=kind == "hexCorners", symmetry="third periodic")
         g._geomType = "hex"
         idx = (i, j, 0)
+    elif kind == "cartZbounds":
+        g = CartesianGrid(unitSteps=((p, 0.0), (0.0, q)), bounds=(None, None, [0.0, p, p + q]))
+        idx = (i, j, int(ctx.int("k", 0, 1)))
     elif kind.startswith("cart"):
         g = CartesianGrid.fromRectangle(p, q, numRings=1, isOffset=kind == "cartOffset",
                                         symmetry="quarter reflective")
@@ -456,3 +492,302 @@ def cartesian_ring_of_a_cell_is_its_enclosing_square(ctx, offset):
     if ctx.canary:
         want = want + ITE(AND(i == -3, j == 2), 1, 0)
     ctx.check_eq("a cell's ring is the index of the smallest central square containing it", rc, want)
+
+
+# ---------------------------------------------------------------------------------------------------------------------
+# "a cell's centre, base and top are the affine (pitch- or bounds-defined) functions of its indices PLUS OFFSET": the
+# offset is added in EVERY dimension, whether that dimension is defined by unit steps or by bounds, however the grid
+# came by its offset (constructor argument or the offset setter), for the grid's own maps and for its locators.
+
+OFFSET_KINDS = ("axial", "cartZbounds", "xyzBounds", "thetaRZ", "hex", "hexCorners", "cart")
+
+
+def _offset_grid(kind, p, q, offset):
+    """grid of the given kind with pitches / bounds made of p and q; None in `bnds` marks a step-defined dimension"""
+    zs = [0.0, p, p + q]
+    if kind == "axial":
+        return AxialGrid(bounds=(None, None, zs), offset=offset), (None, None, zs)
+    if kind == "cartZbounds":        # x, y by unit steps, z by bounds (the pin-mesh / 3-D core layout)
+        return (CartesianGrid(unitSteps=((p, 0.0), (0.0, q)), bounds=(None, None, zs), offset=offset),
+                (None, None, zs))
+    if kind == "xyzBounds":
+        bnds = ([0.0, q, p + q], [0.0, p, 2 * p + q], zs)
+        return CartesianGrid(bounds=bnds, offset=offset), bnds
+    if kind == "thetaRZ":
+        bnds = ([0.0, 1.0, 2.0], [0.0, q, p + q], zs)
+        return ThetaRZGrid(bounds=bnds, offset=offset), bnds
+    if kind.startswith("hex"):
+        g = HexGrid.fromPitch(p, numRings=1, cornersUp=kind == "hexCorners")
+        if offset is not None:
+            g = HexGrid(*g.reduce()._replace(offset=offset))
+        return g, (None, None, None)
+    g = CartesianGrid.fromRectangle(p, q, numRings=1)
+    if offset is not None:
+        g = CartesianGrid(*g.reduce()._replace(offset=offset))
+    return g, (None, None, None)
+
+
+@harness("C07", bounds="axial (z bounds), Cartesian with x,y steps + z bounds, x-y-z bounds, theta-R-Z (native coordinates), hex "
+                       "(both orientations) and Cartesian step grids; symbolic offset in all three dimensions, given to the "
+                       "constructor AND assigned through the offset setter; symbolic pitches / bounds; step indices all "
+                       "integers, bounds indices forked over their range", stubs=STUBS,
+         instances={"quick": [dict(kind=k) for k in OFFSET_KINDS]})
+def cell_centre_base_top_add_the_offset_in_every_dimension(ctx, kind):
+    p, q = ctx.real("p", 0.01, 1000.0), ctx.real("q", 0.01, 1000.0)
+    # theta-R-Z: the offset is in native coordinates; the azimuth has to stay inside one turn
+    off = (ctx.real("ox", 0.0, 1.0) if kind == "thetaRZ" else ctx.real("ox", -1000.0, 1000.0),
+           ctx.real("oy", -1000.0, 1000.0), ctx.real("oz", -1000.0, 1000.0))
+    i, j, k = ctx.int("i"), ctx.int("j"), ctx.int("k")
+    g0, bnds = _offset_grid(kind, p, q, None)
+    gc, _ = _offset_grid(kind, p, q, off)                                  # offset through the constructor
+    gs, _ = _offset_grid(kind, p, q, None)
+    gs.offset = np.array(off, dtype=object if ctx.mode == "sym" else float)  # offset through the setter
+    idx = []
+    for m, v in enumerate((i, j, k)):
+        if bnds[m] is not None:                  # a bounds-defined dimension has len(bounds) - 1 cells
+            ctx.assume(AND(v >= 0, v <= len(bnds[m]) - 2))
+            v = int(v)
+        idx.append(v)
+    idx = tuple(idx)
+    native = dict(nativeCoords=True) if kind == "thetaRZ" else {}
+    sc = (p + q) * (abs(i) + abs(j) + abs(k) + 3) + 3000.0
+    for how, g in (("constructor", gc), ("setter", gs)):
+        loc = IndexLocation(idx[0], idx[1], idx[2], g)
+        maps = (("centre", g0.getCoordinates(idx, **native), g.getCoordinates(idx, **native),
+                 loc.getGlobalCoordinates(**native)),
+                ("base", g0.getCellBase(idx), g.getCellBase(idx), loc.getGlobalCellBase()),
+                ("top", g0.getCellTop(idx), g.getCellTop(idx), loc.getGlobalCellTop()))
+        for what, plain, shifted, viaLocator in maps:
+            for m in range(3):
+                want = plain[m] + off[m]
+                if ctx.canary and how == "setter" and what == "top" and m == 2:
+                    want = want + ITE(off[2] > 999, 1, 0)
+                ctx.check_close("%s, offset by %s: %s[%d] = un-offset %s + offset" % (kind, how, what, m, what),
+                                shifted[m], want, scale=sc)
+                ctx.check_close("%s, offset by %s: locator's %s[%d] = un-offset %s + offset" % (kind, how, what, m, what),
+                                viaLocator[m], want, scale=sc)
+                if bnds[m] is not None:
+                    lo, hi = bnds[m][idx[m]], bnds[m][idx[m] + 1]
+                    direct = {"centre": (lo + hi) / 2, "base": lo, "top": hi}[what] + off[m]
+                    ctx.check_close("%s, offset by %s: %s[%d] = bounds %s + offset" % (kind, how, what, m, what),
+                                    shifted[m], direct, scale=sc)
+
+
+# ---------------------------------------------------------------------------------------------------------------------
+# "Locations in nested grids compose by adding the parent's coordinates and (for axial-in-radial nesting ONLY) indices":
+# every nesting, three deep, of hexagonal / Cartesian / axial grids.  The oracle knows which grids are axial from how
+# the nesting was built, not from the grids' own classification.
+#
+# KNOWN DEFECT (pre-existing, reported by an independent engineer; unchanged tree): a free-coordinate location is a
+# point, its cell base and top are that point, and in the global frame that point is getGlobalCoordinates(); but
+# CoordinateLocation.getGlobalCellBase / getGlobalCellTop return the LOCAL coordinates (the parent's are not added).
+# Repro: top (with a parent) owns HexGrid.fromPitch(10.0); o1 at top.spatialGrid[2, -1, 0] owns
+# CartesianGrid.fromRectangle(1.0, 1.0); cl = CoordinateLocation(0.3, 0.4, 0.5, o1.spatialGrid):
+#   cl.getGlobalCoordinates() -> [17.62, 0.4, 0.5]   cl.getGlobalCellBase() -> [0.3, 0.4, 0.5]
+# VERIF_SHOW_KNOWN_DEFECTS=1 shows the violations.
+KNOWN_DEFECT_coordinate_location_global_cell_base_is_local = True
+NEST_KINDS = ("hex", "cart", "axial")
+
+
+def _nest_grid(kind, p, q, owner):
+    if kind == "hex":
+        g = HexGrid.fromPitch(p, numRings=1)
+    elif kind == "cart":
+        g = CartesianGrid.fromRectangle(p, q, numRings=1)
+    else:
+        g = AxialGrid(bounds=(None, None, [0.0, p, p + q, 2 * p + q]))
+    g.armiObject = owner
+    owner.spatialGrid = g
+    return g
+
+
+@harness("C07", bounds="root > top (at a symbolic free coordinate) > o1 > o2 > o3: o1, o2, o3 located in grids of kinds "
+                       "(k1, k2, k3), every one of the 27 nestings of hexagonal / Cartesian / axial grids (k3 per instance, "
+                       "k1 and k2 chosen symbolically); symbolic pitches / axial bounds per level; hexagonal and Cartesian "
+                       "cells all integers (i, j) with k in 0..2, axial cells forked over 0..2; plus a free-coordinate "
+                       "child (symbolic point) next to o2", stubs=STUBS, max_paths=5000,
+         instances={"quick": [dict(k3=k) for k in NEST_KINDS]})
+def three_deep_nestings_add_coordinates_always_and_indices_only_axial_in_radial(ctx, k3):
+    from armi.reactor import composites
+
+    pq = [(ctx.real("p%d" % m, 0.01, 100.0), ctx.real("q%d" % m, 0.01, 100.0)) for m in range(3)]
+    ijk = [(ctx.int("i%d" % m), ctx.int("j%d" % m), ctx.int("k%d" % m, 0, 2)) for m in range(3)]
+    txyz = [ctx.real("t" + c, -1000.0, 1000.0) for c in "xyz"]
+    fxyz = [ctx.real("f" + c, -10.0, 10.0) for c in "xyz"]
+    kinds = (ctx.choice("kind1", NEST_KINDS), ctx.choice("kind2", NEST_KINDS), k3)
+    root, top = composites.Composite("root"), composites.Composite("top")
+    root.add(top)
+    top.spatialLocator = CoordinateLocation(txyz[0], txyz[1], txyz[2], None)
+    owner, objs, locs, idxs = top, [], [], []
+    for m, kind in enumerate(kinds):
+        g = _nest_grid(kind, pq[m][0], pq[m][1], owner)
+        idx = (0, 0, int(ijk[m][2])) if kind == "axial" else ijk[m]
+        o = composites.Composite("o%d" % (m + 1))
+        owner.add(o)
+        o.spatialLocator = IndexLocation(idx[0], idx[1], idx[2], g)
+        objs.append(o)
+        locs.append(o.spatialLocator)
+        idxs.append(idx)
+        owner = o
+    sc = 3000.0 + sum((p + q) * (abs(i) + abs(j) + 3) for (p, q), (i, j, _k) in zip(pq, ijk))
+    parentGlobal = list(txyz)
+    parentBase = list(txyz)
+    for m, (kind, loc, idx) in enumerate(zip(kinds, locs, idxs)):
+        # coordinates: always the parent's plus the cell's own
+        local = loc.grid.getCoordinates(idx)
+        got = loc.getGlobalCoordinates()
+        for c in range(3):
+            want = local[c] + parentGlobal[c]
+            if ctx.canary and m == 2 and c == 0:
+                want = want + ITE(AND(ijk[0][0] == 2, ijk[1][2] == 1), 1, 0)
+            ctx.check_close("level %d (%s): global %s = own cell centre + parent's global coordinate" % (m + 1, kind, "xyz"[c]),
+                            got[c], want, scale=sc)
+        parentGlobal = [local[c] + parentGlobal[c] for c in range(3)]
+        # indices: the parent's are added only for an axial grid sitting in a non-axial one
+        want = list(idx)
+        if m > 0 and kind == "axial" and kinds[m - 1] != "axial":
+            want = [a + b for a, b in zip(idx, idxs[m - 1])]
+        ci = loc.getCompleteIndices()
+        ctx.check("level %d (%s in %s): complete indices" % (m + 1, kind, kinds[m - 1] if m else "nothing"),
+                  AND(len(ci) == 3, ci[0] == want[0], ci[1] == want[1], ci[2] == want[2]))
+        ctx.check("level %d (%s in %s): the documented predicate agrees" % (m + 1, kind, kinds[m - 1] if m else "nothing"),
+                  m == 0 or bool(gridsmod.addingIsValid(loc.grid, locs[m - 1].grid))
+                  == (kind == "axial" and kinds[m - 1] != "axial"))
+    # a free-coordinate child next to o2 (in o1's grid): a point; centre, base and top in the global frame are the point
+    cl = CoordinateLocation(fxyz[0], fxyz[1], fxyz[2], locs[1].grid)
+    o1Global = locs[0].getGlobalCoordinates()
+    g = cl.getGlobalCoordinates()
+    for c in range(3):
+        ctx.check_close("free-coordinate child: global %s = own coordinate + parent's global coordinate" % "xyz"[c],
+                        g[c], fxyz[c] + o1Global[c], scale=sc)
+    ctx.check("free-coordinate child: complete indices are the basis (0, 0, 0)", tuple(cl.getCompleteIndices()) == (0, 0, 0))
+    if not KNOWN_DEFECT_coordinate_location_global_cell_base_is_local or _SHOW_KNOWN:
+        b, t = cl.getGlobalCellBase(), cl.getGlobalCellTop()
+        for c in range(3):
+            ctx.check_close("free-coordinate child: global cell base %s is the point in the global frame" % "xyz"[c],
+                            b[c], fxyz[c] + o1Global[c], scale=sc)
+            ctx.check_close("free-coordinate child: global cell top %s is the point in the global frame" % "xyz"[c],
+                            t[c], fxyz[c] + o1Global[c], scale=sc)
+
+
+# ---------------------------------------------------------------------------------------------------------------------
+# "the maps between cell indices, (ring, position) numbering, location labels and locator objects are mutually inverse"
+# for EVERY cell, the cells off the k = 0 plane included: (ring, position, k) -> locator -> indices / ring and position /
+# label -> (ring, position, k) -> locator.  Ring and position are forked (the locator look-up hashes the index triple:
+# two different symbolic indices that may coincide would make the look-up ambiguous), the plane k is symbolic.
+
+RINGPOS_KINDS = ("hex", "hexCorners", "thetaRZ")
+
+
+@harness("C07", bounds="hex grid extruded in z with a symbolic axial step (both orientations; rings 1..3, every position, "
+                       "forked) and theta-R-Z grid with 3 x 3 x 3 cells (ring, position, plane forked); hex plane index k "
+                       "symbolic in 0..10^6 (labels are documented for non-negative indices); symbolic pitch; the leg "
+                       "through the label is a separate instance for the hex grids (its parsed plane index and k are two "
+                       "proxies for one number: hashing both in one run would be ambiguous)", stubs=STUBS,
+         max_paths=5000, instances={"quick": [dict(kind=k, leg=l) for k in RINGPOS_KINDS[:2] for l in ("direct", "label")]
+                                             + [dict(kind="thetaRZ", leg="both")]})
+def ring_position_plane_to_locator_and_back(ctx, kind, leg):
+    p, dz = ctx.real("pitch", 0.01, 1000.0), ctx.real("dz", 0.01, 1000.0)
+    k = ctx.int("k", 0, 10 ** 6)
+    ring = int(ctx.int("ring", 1, 3))
+    pos = ctx.int("pos", 1, 12)
+    if kind == "thetaRZ":
+        ctx.assume(pos <= 3)
+        ctx.assume(k <= 2)
+        pos, k = int(pos), int(k)          # bounds-defined in every dimension: the indices select list entries
+        g = ThetaRZGrid(bounds=([0.0, 1.0, 2.0, 3.0], [0.0, p, 2 * p, 4 * p], [0.0, dz, 2 * dz, 4 * dz]))
+    else:
+        ctx.assume(pos <= (1 if ring == 1 else 6 * (ring - 1)))
+        pos = int(pos)
+        steps = [list(row) for row in HexGrid._getRawUnitSteps(p, kind == "hexCorners")]
+        steps[2][2] = dz
+        g = HexGrid(unitSteps=steps, unitStepLimits=((-3, 4), (-3, 4), (0, 4)))
+    i, j = g.getIndicesFromRingAndPos(ring, pos)
+    rare = AND(k == 2, ring == 2, pos == 2)
+    loc = None
+    if leg in ("direct", "both"):
+        loc = g.getLocatorFromRingAndPos(ring, pos, k)
+        wantk = k
+        if ctx.canary:
+            wantk = k + ITE(rare, 1, 0)
+        ctx.check("(ring, pos, k) -> locator: the locator of cell (i, j, k) of this grid",
+                  AND(loc.i == i, loc.j == j, loc.k == wantk, loc.grid is g))
+        r2, p2 = g.getRingPos(loc.indices)
+        ctx.check("locator -> (ring, pos) reads back", AND(r2 == ring, p2 == pos))
+        native = dict(nativeCoords=True) if kind == "thetaRZ" else {}
+        c1, c2 = loc.getLocalCoordinates(**native), g.getCoordinates((i, j, k), **native)
+        sc = (p + dz) * (k + 8)
+        for m in range(3):
+            ctx.check_close("the locator's coordinates are those of cell (i, j, k) [%d]" % m, c1[m], c2[m], scale=sc)
+        if kind == "thetaRZ":
+            ctx.check_close("theta-R-Z: z of plane k is the midpoint of its bounds", c1[2], [dz / 2, 1.5 * dz, 3 * dz][k],
+                            scale=sc)
+        else:
+            ctx.check_close("extruded hex grid: z = k x axial step", c1[2], k * dz, scale=sc)
+    if leg in ("label", "both"):
+        # label of the cell -> numbers -> locator (hex labels are ring-position-plane, the others i-j-k)
+        lab = text(g.getLabel((i, j, k)))
+        a, b, c = locatorLabelToIndices(lab)
+        back = g.getLocatorFromRingAndPos(a, b, c) if kind != "thetaRZ" else g[int(a), int(b), int(c)]
+        wantk = k
+        if ctx.canary and leg == "label":
+            wantk = k + ITE(rare, 1, 0)
+        ctx.check("label -> locator: the same cell", AND(back.i == i, back.j == j, back.k == wantk, back.grid is g))
+        if ctx.mode == "conc":
+            ctx.check("one locator object per cell", g[i, j, k] is back and (loc is None or back is loc))
+
+
+# ---------------------------------------------------------------------------------------------------------------------
+# "changing the pitch rescales coordinates and nothing else": the pitch is the in-plane spacing; the axial direction of a
+# 3-D (extruded) grid -- its z step and the z component of its offset -- is not the pitch's business.
+#
+# KNOWN DEFECTS (pre-existing, reported by an independent engineer; unchanged tree):
+#  * HexGrid.changePitch rebuilds all three unit steps from the new pitch and discards a non-zero z step:
+#      steps = [list(r) for r in HexGrid._getRawUnitSteps(1.3, False)]; steps[2][2] = 2.5
+#      g = HexGrid(unitSteps=steps, unitStepLimits=((-4, 4), (-4, 4), (0, 4)))
+#      g.getCoordinates((1, 1, 2))[2] -> 5.0 ; g.changePitch(2.6) ; g.getCoordinates((1, 1, 2))[2] -> 0.0
+#  * CartesianGrid.changePitch zeroes the z unit step and the z component of the offset:
+#      c = CartesianGrid(unitSteps=((1.0, 0, 0), (0, 2.0, 0), (0, 0, 0)), offset=(0.5, 1.0, 7.0))
+#      c.getCoordinates((1, 1, 0))[2] -> 7.0 ; c.changePitch(2.0, 4.0) ; c.getCoordinates((1, 1, 0))[2] -> 0.0
+# VERIF_SHOW_KNOWN_DEFECTS=1 shows the violations.
+KNOWN_DEFECT_hex_change_pitch_discards_axial_step = True
+KNOWN_DEFECT_cartesian_change_pitch_discards_axial_step_and_offset = True
+
+
+@harness("C07", bounds="hex (both orientations) and Cartesian grids extruded in z: symbolic axial step, symbolic z offset "
+                       "(Cartesian: plus the half-pitch centre offset in x, y), all integer cells (i, j, k); old and new "
+                       "pitches symbolic", stubs=STUBS,
+         instances={"quick": [dict(kind=k) for k in ("hex", "hexCorners", "cart")]})
+def pitch_change_leaves_the_axial_direction_alone(ctx, kind):
+    i, j, k = ctx.int("i"), ctx.int("j"), ctx.int("k")
+    p, q, dz = ctx.real("p", 0.01, 1000.0), ctx.real("q", 0.01, 1000.0), ctx.real("dz", 0.01, 1000.0)
+    p2, q2 = ctx.real("p2", 0.01, 1000.0), ctx.real("q2", 0.01, 1000.0)
+    oz = ctx.real("oz", -1000.0, 1000.0)
+    if kind.startswith("hex"):
+        steps = [list(row) for row in HexGrid._getRawUnitSteps(p, kind == "hexCorners")]
+        steps[2][2] = dz
+        g = HexGrid(unitSteps=steps, unitStepLimits=((-3, 4), (-3, 4), (0, 4)), offset=(0.0, 0.0, oz))
+        hidden = KNOWN_DEFECT_hex_change_pitch_discards_axial_step and not _SHOW_KNOWN
+    else:
+        g = CartesianGrid(unitSteps=((p, 0.0, 0.0), (0.0, q, 0.0), (0.0, 0.0, dz)), offset=(p / 2, q / 2, oz),
+                          unitStepLimits=((-3, 4), (-3, 4), (0, 4)))
+        hidden = KNOWN_DEFECT_cartesian_change_pitch_discards_axial_step_and_offset and not _SHOW_KNOWN
+    x, y, z = g.getCoordinates((i, j, k))
+    wantz = k * dz + oz
+    if ctx.canary:
+        wantz = wantz + ITE(AND(i == 1, k == 3), 1, 0)
+    ctx.check_close("extruded grid: z = k x axial step + z offset", z, wantz, scale=dz * (abs(k) + 1) + 1000.0)
+    if kind.startswith("hex"):
+        g.changePitch(p2)
+        fx, fy = p2 / p, p2 / p
+    else:
+        g.changePitch(p2, q2)
+        fx, fy = p2 / p, q2 / q
+    x2, y2, z2 = g.getCoordinates((i, j, k))
+    scx, scy = (p + p2) * (abs(i) + abs(j) + 1), (p + q + p2 + q2) * (abs(i) + abs(j) + 1)
+    ctx.check_close("x rescaled by the ratio of the pitches", x2, x * fx, scale=scx * (1 + fx))
+    ctx.check_close("y rescaled by the ratio of the pitches", y2, y * fy, scale=scy * (1 + fy))
+    if not hidden:
+        ctx.check_close("z (axial step and z offset) untouched by a pitch change", z2, z,
+                        scale=dz * (abs(k) + 1) + 1000.0)
+        ctx.check_close("z offset untouched by a pitch change", g.offset[2], oz, scale=1000.0)
